@@ -46,14 +46,14 @@ func runFmtLike(c *core.Check, chk func(*core.Check, string, map[string]any) boo
 		e1c = map[string]string{"MaxD": "2", "Level2": "\"core\""}
 	}
 	c.Extra["e1_constants"] = e1c
-	streamTLC(c, core.TLCRun{Module: "MC_E1", Parts: 4, Consts: e1c, Timeout: minutes(30), KeepVars: []string{"e", "fv", "last"}},
+	streamTLC(c, core.TLCRun{Module: "MC_E1", NoPred: true, Parts: 4, Consts: e1c, Timeout: minutes(30), KeepVars: []string{"e", "fv", "last"}},
 		func(st core.State) { e1h(c, st) })
 	// heredoc and flush heredoc templates as attribute values and inside brackets
 	hd := "1"
 	if c.Tier == "thorough" {
 		hd = "2"
 	}
-	streamTLC(c, core.TLCRun{Module: "MC_E1", Parts: 4, Consts: map[string]string{"MaxD": hd, "Level2": "\"heredoc\""}, Timeout: minutes(30), KeepVars: []string{"e", "fv", "last"}},
+	streamTLC(c, core.TLCRun{Module: "MC_E1", NoPred: true, Parts: 4, Consts: map[string]string{"MaxD": hd, "Level2": "\"heredoc\""}, Timeout: minutes(30), KeepVars: []string{"e", "fv", "last"}},
 		func(st core.State) { e1h(c, st) })
 	// size extremes the bounded generators cannot reach (fixed supplementary corpus): deep nesting,
 	// wide alignment columns, long comments
